@@ -318,3 +318,6 @@ def replay(doc):
     if bad:
         return True, f"reproduced: {bad[0]}: {bad[1]}"
     return False, "agrees with the linear scan"
+
+
+RULE += ' Also (wave 9): intervals sharing an infinite end, ints beyond 2**53 next to floats one unit away, Decimal / Fraction interval ends next to floats; the empty map in four consecutive shards (-O, DEBUG logging, warnings as errors, plain).'
